@@ -35,7 +35,16 @@
     - db.go deletePrivateKeys: the address switch has cases adtImport,
       adtScript, adtWitnessScript; whether adtTaprootScript rows are stripped
       is the parameter [strip_tr] (regenerated from source into
-      Generated/TaintSites.v). *)
+      Generated/TaintSites.v; true since fix 71c2e41).
+    - WHICH key seals WHAT is not written down here: every sealed field the
+      operations write is [sealT T site ctx] where the [table] [T] maps each
+      write [site] of the code (a place where the result of [X.Encrypt(arg)]
+      is stored) to the sealing key [X] and the [content] class of [arg].
+      The table of the current tree is regenerated from the source
+      (Generated/TaintSites.v: receiver of each Encrypt call, origin of its
+      argument); the theorems hold for every table that passes the decidable
+      check [table_ok], and Properties/C04.v discharges [table_ok] of the
+      regenerated table by computation. *)
 From Coq Require Import String.
 From Verif Require Import Base.Prelude.
 Local Open Scope N_scope.
@@ -132,8 +141,12 @@ Fixpoint ok (strict upriv uany hashed : bool) (t : term) : bool :=
   | Const _ => true
   end.
 
-(** private material: anything a watching-only database must not hold in ANY
-    form (sealed or not): secret atoms and the private passphrase. *)
+(** private material: what a LIVE ROW of a watching-only database must not
+    hold in any form (sealed or not): secret atoms and the private
+    passphrase.  (The model's disk is the set of live rows; pages that bbolt
+    has freed but not yet overwritten still hold the old ciphertexts - they
+    are outside this model and outside the letter of the property, see
+    Properties/C04.v "What is NOT claimed".) *)
 Definition private_atom (a : atom) : bool :=
   match a with
   | SSeed | SMasterXprv | SCoinXprv _ | SAcctXprv _ _ | SAddrPriv _ | SImpPriv _
@@ -161,6 +174,106 @@ Fixpoint mentions (p : atom -> bool) (t : term) : bool :=
   | Cat a b => mentions p a || mentions p b
   | Const _ => false
   end.
+
+(* ---------------------------------------------------- sealing-site table *)
+
+(** what the argument of an [Encrypt] call is, by origin in the source *)
+Inductive content :=
+| CtMasterXprv | CtMasterXpub            (* rootKey.String() / its Neuter() *)
+| CtCoinXprv | CtCoinXpub                (* derived coin-type key *)
+| CtAcctXprv | CtAcctXpub                (* derived account key *)
+| CtImpXpub                             (* account public key handed in by the caller *)
+| CtPrivKey                             (* serialised EC private key (WIF import) *)
+| CtPubKey                              (* serialised EC public key *)
+| CtAddrId                              (* script hash / witness program / taproot output key *)
+| CtSecretScript | CtPublicScript        (* imported script, by the isSecretScript flag *)
+| CtKeyPub | CtKeyPriv | CtKeyScript      (* bytes of a crypto key *)
+| CtPassphrase | CtSeed
+| CtUnknown.                            (* origin not recognised: treated as the worst case *)
+
+Record entry := { e_key : keyid; e_content : content }.
+
+(** the write sites the operations of the model use *)
+Inductive site :=
+| XCreateMhdPriv | XCreateMhdPub | XCreateCPub | XCreateCPriv | XCreateCScript   (* Create *)
+| XScopeCtPub | XScopeCtPriv | XScopeAcctPub | XScopeAcctPriv                    (* createManagerKeyScope *)
+| XNewAcctPub | XNewAcctPriv                                                     (* newAccount *)
+| XWatchAcctPub                                                                  (* newAccountWatchingOnly *)
+| XImpPub | XImpPriv                                                             (* importPublicKey / ImportPrivateKey *)
+| XScriptHash | XScriptSecret | XScriptPublic                                    (* importScriptAddress *)
+| XChPrivCPriv | XChPrivCScript | XChPubCPub.                                    (* ChangePassphrase *)
+
+Definition all_sites : list site :=
+  [XCreateMhdPriv; XCreateMhdPub; XCreateCPub; XCreateCPriv; XCreateCScript;
+   XScopeCtPub; XScopeCtPriv; XScopeAcctPub; XScopeAcctPriv; XNewAcctPub; XNewAcctPriv;
+   XWatchAcctPub; XImpPub; XImpPriv; XScriptHash; XScriptSecret; XScriptPublic;
+   XChPrivCPriv; XChPrivCScript; XChPubCPub].
+
+Definition table := site -> entry.
+
+(** the run-time identity of what a site seals *)
+Record ctx := { cx_scope : scope; cx_acct : N; cx_n : N; cx_comp : bool; cx_len : N; cx_hlen : N }.
+
+Definition ctx0 : ctx :=
+  {| cx_scope := (0, 0); cx_acct := 0; cx_n := 0; cx_comp := true; cx_len := 0; cx_hlen := 0 |}.
+
+Definition atom_of (c : content) (x : ctx) : atom :=
+  match c with
+  | CtMasterXprv => SMasterXprv
+  | CtMasterXpub => PMasterXpub
+  | CtCoinXprv => SCoinXprv (cx_scope x)
+  | CtCoinXpub => PCoinXpub (cx_scope x)
+  | CtAcctXprv => SAcctXprv (cx_scope x) (cx_acct x)
+  | CtAcctXpub => PAcctXpub (cx_scope x) (cx_acct x)
+  | CtImpXpub => PImpXpub (cx_n x)
+  | CtPrivKey => SImpPriv (cx_n x)
+  | CtPubKey => PPubKey (cx_n x) (cx_comp x)
+  | CtAddrId => PAddrId (AScr (cx_n x) (cx_hlen x))
+  | CtSecretScript => SScript (cx_n x) (cx_len x)
+  | CtPublicScript => PScript (cx_n x) (cx_len x)
+  | CtKeyPub => PKeyPub
+  | CtKeyPriv => SKeyPriv
+  | CtKeyScript => SKeyScriptStored
+  | CtPassphrase => SPass true 0
+  | CtSeed | CtUnknown => SSeed
+  end.
+
+(** the field a site stores *)
+Definition sealT (T : table) (s : site) (x : ctx) : term :=
+  Enc (e_key (T s)) (Clear (atom_of (e_content (T s)) x)).
+
+(** class of a content (that of its atom; independent of the run-time identity) *)
+Definition cclass (strict : bool) (c : content) : class := class_of strict (atom_of c ctx0).
+
+Definition content_private (c : content) : bool := private_atom (atom_of c ctx0).
+Definition content_never (c : content) : bool := never_atom (atom_of c ctx0).
+
+(** the sealing alone satisfies the rule of the property, in both readings
+    of the script key *)
+Definition seal_ok_for (strict : bool) (e : entry) : bool :=
+  match cclass strict (e_content e) with
+  | Passphrase => false
+  | Secret => priv_key strict (e_key e)
+  | Sensitive | Public => true
+  end.
+
+Definition entry_safe (e : entry) : bool :=
+  seal_ok_for false e && seal_ok_for true e && negb (content_never (e_content e)).
+
+(** sites whose field is still there after a conversion to watching-only
+    (neither deleted nor blanked by deletePrivateKeys) *)
+Definition site_survives (s : site) : bool :=
+  match s with
+  | XCreateMhdPub | XCreateCPub | XScopeCtPub | XScopeAcctPub | XNewAcctPub | XWatchAcctPub
+  | XImpPub | XScriptHash | XScriptPublic | XChPubCPub => true
+  | _ => false
+  end.
+
+Definition entry_ok (s : site) (e : entry) : bool :=
+  entry_safe e && (negb (site_survives s) || negb (content_private (e_content e))).
+
+(** the decidable condition on a table under which all theorems hold *)
+Definition table_ok (T : table) : bool := forallb (fun s => entry_ok s (T s)) all_sites.
 
 (* ------------------------------------------------------------------- rows *)
 
@@ -256,16 +369,23 @@ Definition acct_val (i : acct_info) : list term :=
      knum (ai_ext i); knum (ai_int i); kname (fst (ai_name i)) (snd (ai_name i)); sch]
   end.
 
-Definition new_default_acct (s : scope) (a : N) (nm : N * N) : acct_info :=
-  {| ai_kind := ADefault (Enc KCryptoPub (Clear (PAcctXpub s a))) (Enc KCryptoPriv (Clear (SAcctXprv s a)));
+Definition cx_account (s : scope) (a : N) : ctx :=
+  {| cx_scope := s; cx_acct := a; cx_n := 0; cx_comp := true; cx_len := 0; cx_hlen := 0 |}.
+
+Definition cx_item (n : N) (comp : bool) (len hlen : N) : ctx :=
+  {| cx_scope := (0, 0); cx_acct := 0; cx_n := n; cx_comp := comp; cx_len := len; cx_hlen := hlen |}.
+
+(** [xpub], [xprv]: the two sites of the calling function (createManagerKeyScope or newAccount) *)
+Definition new_default_acct (T : table) (xpub xprv : site) (s : scope) (a : N) (nm : N * N) : acct_info :=
+  {| ai_kind := ADefault (sealT T xpub (cx_account s a)) (sealT T xprv (cx_account s a));
      ai_name := nm; ai_ext := 0; ai_int := 0 |}.
 
-Definition new_watch_acct (x : N) (sch : bool) (nm : N * N) : acct_info :=
-  {| ai_kind := AWatch (Enc KCryptoPub (Clear (PImpXpub x))) (Const (if sch then 3 else 1));
+Definition new_watch_acct (T : table) (x : N) (sch : bool) (nm : N * N) : acct_info :=
+  {| ai_kind := AWatch (sealT T XWatchAcctPub (cx_item x true 0 0)) (Const (if sch then 3 else 1));
      ai_name := nm; ai_ext := 0; ai_int := 0 |}.
 
-Definition seal_opt (present : bool) (k : keyid) (a : atom) : term :=
-  if present then Enc k (Clear a) else Const 0.
+Definition seal_opt (present : bool) (t : term) : term :=
+  if present then t else Const 0.
 
 (** putAccountInfo: row + id index + name index *)
 Definition w_account (s : scope) (a : N) (i : acct_info) : list write :=
@@ -282,9 +402,9 @@ Definition w_address (s : scope) (id : addrid) (acct : N) (v : list term) : list
 (* addrType | account(4) addTime(8) syncStatus(1) rdlen(4) | raw data *)
 Definition chain_val : list term := [Clear (UTag 0); Const 17; Const 8].
 
-Definition import_val (n : N) (compressed has_priv : bool) : list term :=
-  [Clear (UTag 1); Const 17; Const 4; Enc KCryptoPub (Clear (PPubKey n compressed));
-   Const 4; seal_opt has_priv KCryptoPriv (SImpPriv n)].
+Definition import_val (T : table) (n : N) (compressed has_priv : bool) : list term :=
+  [Clear (UTag 1); Const 17; Const 4; sealT T XImpPub (cx_item n compressed 0 0);
+   Const 4; seal_opt has_priv (sealT T XImpPriv (cx_item n compressed 0 0))].
 
 Inductive script_kind := KP2SH | KWitness (secret : bool) | KTaproot (secret : bool).
 
@@ -293,21 +413,19 @@ Definition script_secret (k : script_kind) : bool :=
 
 Definition script_hlen (k : script_kind) : N := match k with KP2SH => 20 | _ => 32 end.
 
-Definition script_field (n len : N) (secret : bool) : term :=
-  if secret then Enc KCryptoScript (Clear (SScript n len)) else Enc KCryptoPub (Clear (PScript n len)).
+Definition script_field (T : table) (n len hlen : N) (secret : bool) : term :=
+  sealT T (if secret then XScriptSecret else XScriptPublic) (cx_item n true len hlen).
 
-Definition script_val (n len : N) (k : script_kind) : list term :=
-  let id := AScr n (script_hlen k) in
+Definition script_val (T : table) (n len : N) (k : script_kind) : list term :=
+  let hl := script_hlen k in
+  let hash := sealT T XScriptHash (cx_item n true len hl) in
   match k with
   | KP2SH =>
-    [Clear (UTag 2); Const 17; Const 4; Enc KCryptoPub (Clear (PAddrId id)); Const 4;
-     script_field n len true]
+    [Clear (UTag 2); Const 17; Const 4; hash; Const 4; script_field T n len hl true]
   | KWitness sec =>
-    [Clear (UTag 3); Const 17; Const 1; Clear (UFlag sec); Const 4;
-     Enc KCryptoPub (Clear (PAddrId id)); Const 4; script_field n len sec]
+    [Clear (UTag 3); Const 17; Const 1; Clear (UFlag sec); Const 4; hash; Const 4; script_field T n len hl sec]
   | KTaproot sec =>
-    [Clear (UTag 4); Const 17; Const 1; Clear (UFlag sec); Const 4;
-     Enc KCryptoPub (Clear (PAddrId id)); Const 4; script_field n len sec]
+    [Clear (UTag 4); Const 17; Const 1; Clear (UFlag sec); Const 4; hash; Const 4; script_field T n len hl sec]
   end.
 
 (** createManagerKeyScope: coin-type keys, account 0 "default", the keyless
@@ -315,10 +433,10 @@ Definition script_val (n len : N) (k : script_kind) : list term :=
 Definition imported_acct_info : acct_info :=
   {| ai_kind := ADefault (Const 0) (Const 0); ai_name := (1, 8); ai_ext := 0; ai_int := 0 |}.
 
-Definition w_key_scope (s : scope) : list write :=
-  [WPut (p_scope s) (kstr "ctpub") [Enc KCryptoPub (Clear (PCoinXpub s))];
-   WPut (p_scope s) (kstr "ctpriv") [Enc KCryptoPriv (Clear (SCoinXprv s))]]
-  ++ w_account s 0 (new_default_acct s 0 (0, 7))
+Definition w_key_scope (T : table) (s : scope) : list write :=
+  [WPut (p_scope s) (kstr "ctpub") [sealT T XScopeCtPub (cx_account s 0)];
+   WPut (p_scope s) (kstr "ctpriv") [sealT T XScopeCtPriv (cx_account s 0)]]
+  ++ w_account s 0 (new_default_acct T XScopeAcctPub XScopeAcctPriv s 0 (0, 7))
   ++ w_account s imported_acct imported_acct_info
   (* the default account is the last account of the new scope *)
   ++ [WPut (p_scope s ++ [BMeta]) (kstr "lastaccount") [knum 0]].
@@ -332,18 +450,18 @@ Definition w_synced (h : N) : list write :=
   ++ [WPut [BSync] (kstr "syncedto") [Const 40]].
 
 (** manager.go Create (with a root key), in the order of the code *)
-Definition w_create : list write :=
+Definition w_create (T : table) : list write :=
   flat_map (fun s => [WPut [BSchema] (Clear (UScope s)) [Const 2];
                       WPut (p_scope s ++ [BMeta]) (kstr "lastaccount") [knum 0]]) default_scopes
   ++ [WPut [BMain] (kstr "mgrver") [Const 4]; WPut [BMain] (kstr "mgrcreated") [Const 8]]
-  ++ flat_map w_key_scope default_scopes
-  ++ [WPut [BMain] (kstr "mhdpriv") [Enc KCryptoPriv (Clear SMasterXprv)];
-      WPut [BMain] (kstr "mhdpub") [Enc KCryptoPub (Clear PMasterXpub)];
+  ++ flat_map (w_key_scope T) default_scopes
+  ++ [WPut [BMain] (kstr "mhdpriv") [sealT T XCreateMhdPriv ctx0];
+      WPut [BMain] (kstr "mhdpub") [sealT T XCreateMhdPub ctx0];
       WPut [BMain] (kstr "mpriv") (master_params true 0);
       WPut [BMain] (kstr "mpub") (master_params false 0);
-      WPut [BMain] (kstr "cpub") [Enc KMasterPub (Clear PKeyPub)];
-      WPut [BMain] (kstr "cpriv") [Enc KMasterPriv (Clear SKeyPriv)];
-      WPut [BMain] (kstr "cscript") [Enc KMasterPriv (Clear SKeyScriptStored)];
+      WPut [BMain] (kstr "cpub") [sealT T XCreateCPub ctx0];
+      WPut [BMain] (kstr "cpriv") [sealT T XCreateCPriv ctx0];
+      WPut [BMain] (kstr "cscript") [sealT T XCreateCScript ctx0];
       WPut [BMain] (kstr "watchonly") [Clear (UFlag false)]]
   ++ w_synced 0
   ++ [WPut [BSync] (kstr "startblock") [Const 36]; WPut [BSync] (kstr "birthday") [Const 8]].
@@ -481,12 +599,12 @@ Definition w_chain (s : scope) (acct : N) (internal : bool) (i : acct_info) (idx
   w_address s (AChain s acct internal idx) acct chain_val
   ++ [WPut (p_scope s ++ [BAcct]) (knum acct) (acct_val (set_next i internal (idx + 1)))].
 
-(** [writes strip_tr st o]: [None] = the call returns an error (the
+(** [writes T strip_tr st o]: [None] = the call returns an error (the
     transaction is rolled back); [Some ws] = it commits the writes [ws]. *)
-Definition writes (strip_tr : bool) (st : state) (o : op) : option (list write) :=
+Definition writes (T : table) (strip_tr : bool) (st : state) (o : op) : option (list write) :=
   let d := dsk st in
   match o with
-  | OCreate => if created st then None else Some w_create
+  | OCreate => if created st then None else Some (w_create T)
   | OReopen => if created st then Some [] else None
   | OUnlock pass_ok => if negb (created st) || wo st || negb pass_ok then None else Some []
   | OLock => if negb (created st) || wo st || locked st then None else Some []
@@ -495,12 +613,12 @@ Definition writes (strip_tr : bool) (st : state) (o : op) : option (list write) 
        || negb (has (p_scope s) (kstr "ctpriv") d)
     then None
     else let a := next_account s d in
-         Some (w_account s a (new_default_acct s a (name, nlen))
+         Some (w_account s a (new_default_acct T XNewAcctPub XNewAcctPriv s a (name, nlen))
                ++ [WPut (p_scope s ++ [BMeta]) (kstr "lastaccount") [knum a]])
   | ONewScope s =>
     if negb (created st) || wo st || locked st || scope_exists s d || negb (has [BMain] (kstr "mhdpriv") d)
     then None
-    else Some (WPut [BSchema] (Clear (UScope s)) [Const 2] :: w_key_scope s)
+    else Some (WPut [BSchema] (Clear (UScope s)) [Const 2] :: w_key_scope T s)
   | ODerive s acct internal n =>
     if negb (created st) || (n =? 0) then None
     else match read_acct s acct d with
@@ -514,20 +632,20 @@ Definition writes (strip_tr : bool) (st : state) (o : op) : option (list write) 
   | OImportPriv s id compressed =>
     if negb (created st) || negb (scope_exists s d) || (locked st && negb (wo st)) || addr_known s (AImp id) d
     then None
-    else Some (w_address s (AImp id) imported_acct (import_val id compressed (negb (wo st))))
+    else Some (w_address s (AImp id) imported_acct (import_val T id compressed (negb (wo st))))
   | OImportPub s id =>
     if negb (created st) || negb (scope_exists s d) || addr_known s (AImp id) d then None
-    else Some (w_address s (AImp id) imported_acct (import_val id true false))
+    else Some (w_address s (AImp id) imported_acct (import_val T id true false))
   | OImportScript s id len k =>
     let sec := script_secret k in
     if negb (created st) || negb (scope_exists s d) || (sec && (locked st || wo st))
        || addr_known s (AScr id (script_hlen k)) d
     then None
-    else Some (w_address s (AScr id (script_hlen k)) imported_acct (script_val id len k))
+    else Some (w_address s (AScr id (script_hlen k)) imported_acct (script_val T id len k))
   | OImportXpub s id name nlen sch =>
     if negb (created st) || negb (scope_exists s d) || name_taken s name nlen d then None
     else let a := next_account s d in
-         Some (w_account s a (new_watch_acct id sch (name, nlen))
+         Some (w_account s a (new_watch_acct T id sch (name, nlen))
                ++ [WPut (p_scope s ++ [BMeta]) (kstr "lastaccount") [knum a]])
   | ORename s acct name nlen =>
     if negb (created st) || (acct =? imported_acct) || negb (scope_exists s d) || name_taken s name nlen d then None
@@ -541,11 +659,11 @@ Definition writes (strip_tr : bool) (st : state) (o : op) : option (list write) 
   | OChangePass private old_ok =>
     if negb (created st) || (private && wo st) || negb old_ok then None
     else if private then
-      Some [WPut [BMain] (kstr "cpriv") [Enc KMasterPriv (Clear SKeyPriv)];
-            WPut [BMain] (kstr "cscript") [Enc KMasterPriv (Clear SKeyScriptStored)];
+      Some [WPut [BMain] (kstr "cpriv") [sealT T XChPrivCPriv ctx0];
+            WPut [BMain] (kstr "cscript") [sealT T XChPrivCScript ctx0];
             WPut [BMain] (kstr "mpriv") (master_params true (gen_priv st + 1))]
     else
-      Some [WPut [BMain] (kstr "cpub") [Enc KMasterPub (Clear PKeyPub)];
+      Some [WPut [BMain] (kstr "cpub") [sealT T XChPubCPub ctx0];
             WPut [BMain] (kstr "mpub") (master_params false (gen_pub st + 1))]
   | OMarkUsed s id =>
     if negb (created st) || negb (addr_known s id d) then None
@@ -562,8 +680,8 @@ Definition writes (strip_tr : bool) (st : state) (o : op) : option (list write) 
 (** memory side of an operation (lock state, watching-only flag, passphrase
     generations).  Lock and Unlock have no disk effect: their write list is
     empty. *)
-Definition step (strip_tr : bool) (st : state) (o : op) : state * bool :=
-  match writes strip_tr st o with
+Definition step (T : table) (strip_tr : bool) (st : state) (o : op) : state * bool :=
+  match writes T strip_tr st o with
   | None =>
     (* a failed Unlock locks the manager *)
     (match o with
@@ -592,14 +710,14 @@ Definition step (strip_tr : bool) (st : state) (o : op) : state * bool :=
         gen_pub := match o with OChangePass false _ => gen_pub st + 1 | _ => gen_pub st end |}, true)
   end.
 
-Definition run (strip_tr : bool) (h : list op) : state :=
-  fold_left (fun st o => fst (step strip_tr st o)) h init.
+Definition run (T : table) (strip_tr : bool) (h : list op) : state :=
+  fold_left (fun st o => fst (step T strip_tr st o)) h init.
 
 (** every commit boundary of a history: the states after each prefix *)
-Fixpoint boundaries (strip_tr : bool) (st : state) (h : list op) : list state :=
+Fixpoint boundaries (T : table) (strip_tr : bool) (st : state) (h : list op) : list state :=
   match h with
   | [] => []
-  | o :: h' => let st' := fst (step strip_tr st o) in st' :: boundaries strip_tr st' h'
+  | o :: h' => let st' := fst (step T strip_tr st o) in st' :: boundaries T strip_tr st' h'
   end.
 
 (* -------------------------------------------------------- row predicates *)
@@ -609,7 +727,7 @@ Definition fields (r : row) : list term := r_key r :: r_val r.
 (** (a)+(b): every atom of every stored key and value is in an allowed context *)
 Definition ok_row (strict : bool) (r : row) : bool := forallb (ok strict false false false) (fields r).
 
-(** no private material in any form *)
+(** no private material in any form in this (live) row *)
 Definition clean_row (r : row) : bool := forallb (fun t => negb (has_private t)) (fields r).
 
 Definition avoids_never (r : row) : bool := forallb (fun t => negb (mentions never_atom t)) (fields r).
@@ -648,3 +766,44 @@ Definition refuses (r : api_result) : bool := match r with Served => false | _ =
     S5: the script key is never decrypted on Unlock, it stays all-zero. *)
 Definition sealing_key_is_constant (k : keyid) : bool :=
   match k with KCryptoScript => true | _ => false end.
+
+(* ------------------------------------------------- slots (source and facts) *)
+
+(** where a sealed field is stored: the parameter of the db.go function that
+    receives it (source side) = the field of the row it ends up in (observed
+    side).  [LScrScript sec]: the script field of a script row, by its
+    secret flag (p2sh rows are always secret). *)
+Inductive slot :=
+| LMhdPriv | LMhdPub | LCPub | LCPriv | LCScript
+| LCtPub | LCtPriv
+| LAcctPub | LAcctPriv | LWatchAcctPub
+| LImpPub | LImpPriv
+| LScrHash | LScrScript (secret : bool).
+
+(** fields that a conversion to watching-only neither deletes nor blanks
+    (secret taproot scripts: see [strip_tr]; they are the set K) *)
+Definition slot_survives (l : slot) : bool :=
+  match l with
+  | LMhdPub | LCPub | LCtPub | LAcctPub | LWatchAcctPub | LImpPub | LScrHash | LScrScript false => true
+  | _ => false
+  end.
+
+(** the check of [entry_ok] for an arbitrary write site of the source, by the
+    slot it stores into *)
+Definition source_entry_ok (l : slot) (e : entry) : bool :=
+  entry_safe e && (negb (slot_survives l) || negb (content_private (e_content e))).
+
+Definition site_slot (s : site) : slot :=
+  match s with
+  | XCreateMhdPriv => LMhdPriv | XCreateMhdPub => LMhdPub
+  | XCreateCPub | XChPubCPub => LCPub
+  | XCreateCPriv | XChPrivCPriv => LCPriv
+  | XCreateCScript | XChPrivCScript => LCScript
+  | XScopeCtPub => LCtPub | XScopeCtPriv => LCtPriv
+  | XScopeAcctPub | XNewAcctPub => LAcctPub
+  | XScopeAcctPriv | XNewAcctPriv => LAcctPriv
+  | XWatchAcctPub => LWatchAcctPub
+  | XImpPub => LImpPub | XImpPriv => LImpPriv
+  | XScriptHash => LScrHash
+  | XScriptSecret => LScrScript true | XScriptPublic => LScrScript false
+  end.
